@@ -130,6 +130,13 @@ func checkOffsetLoop(c *Check, p *Program, rule string, f *ssa.Function, lp *loo
 				return okInv, "the length octet decoded before the loop"
 			}
 		}
+		if u, ok := v.(*ssa.UnOp); ok && u.Op == token.MUL {
+			if ia, ok := u.X.(*ssa.IndexAddr); ok && isData(ia.X) && !lp.Body[u.Block()] {
+				if _, isK := constInt(ia.Index); isK {
+					return true, "the length octet read before the loop"
+				}
+			}
+		}
 		return false, ""
 	}
 	okT1 := off != nil && off.Block() == lp.Header && end != nil
@@ -247,6 +254,32 @@ func checkOffsetLoop(c *Check, p *Program, rule string, f *ssa.Function, lp *loo
 						okHdr = true
 					}
 				}
+			}
+		}
+		if !okHdr {
+			// hand-written header: length := data[k], type := data[k+1] with k = 0 before the loop or k = the offset inside it
+			var lenLd *ssa.UnOp
+			if u, ok := stripAllConv(end).(*ssa.UnOp); ok && u.Op == token.MUL {
+				if _, isIA := u.X.(*ssa.IndexAddr); isIA {
+					lenLd = u
+				}
+			}
+			if lenLd != nil {
+				ia := lenLd.X.(*ssa.IndexAddr)
+				base, isK := constInt(ia.Index)
+				instrsOf(f, func(in ssa.Instruction) {
+					u, ok := in.(*ssa.UnOp)
+					if !ok || u.Op != token.MUL {
+						return
+					}
+					ia2, ok := u.X.(*ssa.IndexAddr)
+					if !ok || !isData(ia2.X) {
+						return
+					}
+					if k2, isK2 := constInt(ia2.Index); isK && isK2 && base == 0 && k2 == 1 {
+						okHdr = true
+					}
+				})
 			}
 		}
 		c.Decide(okHdr, rule, name+" reads (length, type) in that order", p.Pos(f.Pos()), "header read: announced length first, type second, one octet each", "the header of a block is not read as announced length then type: the loop advances by the type octet")
@@ -475,6 +508,19 @@ func readsOwnHeader(fn *ssa.Function) bool {
 			}
 		}
 	})
+	if !found {
+		if data := inputParam(fn); data != nil {
+			instrsOf(fn, func(in ssa.Instruction) {
+				if u, ok := in.(*ssa.UnOp); ok && u.Op == token.MUL {
+					if ia, ok := u.X.(*ssa.IndexAddr); ok && ia.X == ssa.Value(data) {
+						if k, isK := constInt(ia.Index); isK && k == 0 {
+							found = true
+						}
+					}
+				}
+			})
+		}
+	}
 	return found
 }
 
